@@ -1,0 +1,25 @@
+//go:build verif
+
+package pipeline
+
+import "sync/atomic"
+
+var verifStageHook atomic.Pointer[func(stage string, item *BlockItem)]
+
+// SetVerifStageHook installs (or, with nil, removes) a process-wide function
+// that is called by a stage worker right before it processes an item. It only
+// exists in builds with the "verif" tag and lets an external verification
+// harness hold an item inside a worker (a slow decode / validate).
+func SetVerifStageHook(f func(stage string, item *BlockItem)) {
+	if f == nil {
+		verifStageHook.Store(nil)
+		return
+	}
+	verifStageHook.Store(&f)
+}
+
+func verifBeforeProcess(stage Stage, item *BlockItem) {
+	if f := verifStageHook.Load(); f != nil {
+		(*f)(stage.Name(), item)
+	}
+}
